@@ -50,7 +50,8 @@ CONFIGS = {
     'ctx0': ({'ctl': [op(RS)], 'x': [op(CC)]}, {'WithCtx': True, 'Jobs': [1]}, 'quick'),
     'ctxpause': ({'c1': [op(A, job=1)], 'ctl': [op(P), op(R), op(WU)], 'x': [op(CC)]}, {'WithCtx': True, 'Jobs': [1]}, 'quick'),
     'ctxpause2': ({'c1': [op(A, job=1)], 'ctl': [op(PW), op(R), op(P), op(WU)], 'x': [op(CC)]}, {'WithCtx': True, 'Jobs': [1]}, 'thorough'),
-    'tuneratio': ({'c1': [op(A, job=1), op(WU)], 'ctl': [op(T, n=2), op(T, n=1), op(T, n=3)]}, {'Jobs': [1], 'Nodes': [1, 2, 3], 'PGSeq': ['pg1', 'pg2', 'pg3'], 'Conc0': 3, 'Ratio': 100}, 'quick'),
+    'tuneratio': ({'c1': [op(A, job=1), op(WU)], 'ctl': [op(T, n=2), op(T, n=1), op(T, n=3)]}, {'Jobs': [1], 'Nodes': [1, 2, 3], 'PGSeq': ['pg1', 'pg2', 'pg3'], 'Conc0': 3, 'Ratio': 100, 'TrackTune': True}, 'quick'),
+    'tunedown': ({'c1': [op(A, job=1), op(A, job=2), op(A, job=3)], 'ctl': [op(T, n=1), op('Nop')]}, {'Jobs': [1, 2, 3], 'Nodes': [1, 2], 'PGSeq': ['pg1', 'pg2'], 'Conc0': 2, 'TrackTune': True}, 'thorough'),
     'batch': ({'c1': [op(AA, n=1), op(BR, n=1)], 'w1': [op(BW, n=1)]}, {'Conc0': 2, 'WK': 'result', 'BatchOf': {1: 1, 2: 1}}, 'quick'),
     'batch0': ({'c1': [op(AA, n=1), op(BR, n=1), op(A, job=1), op(RES, job=1)]}, {'WK': 'err', 'BatchOf': {1: 0}, 'Jobs': [1], 'Outcome': {1: 'err'}}, 'quick'),
     'batchpurge': ({'c1': [op(AA, n=1), op(BW, n=1)], 'x': [op(PU)], 'y': [op(QC)]}, {'Conc0': 1, 'WK': 'err', 'BatchOf': {1: 1, 2: 1}, 'Outcome': {1: 'err', 2: 'ok'}}, 'thorough'),
@@ -83,13 +84,13 @@ CONFIGS = {
 
 DEFAULTS = {'Jobs': [1, 2], 'QKind': 'fifo', 'Nodes': [1, 2], 'DispSeq': ['disp1', 'disp2'], 'PGSeq': ['pg1', 'pg2'],
             'Conc0': 1, 'Ratio': 0, 'Expiry': False, 'WithCtx': False, 'MaxGen': 1, 'WK': 'plain', 'Faults': [], 'MaxCrash': 0,
-            'QKinds': None, 'QOf': None, 'Strategy': 'rr', 'NoBind': False}
+            'QKinds': None, 'QOf': None, 'Strategy': 'rr', 'NoBind': False, 'TrackTune': False}
 
-SAFETY = ['TypeOK', 'NoViolation', 'C01_AtMostOnce', 'C01_NoRejected', 'C02_Bound', 'C09_PauseBound', 'C17_Bounds', 'C18_PoolBound', 'C18_IdleAtRest',
+SAFETY = ['TypeOK', 'NoViolation', 'C01_AtMostOnce', 'C01_NoRejected', 'C02_Bound', 'C02_TuneBound', 'C09_PauseBound', 'C17_Bounds', 'C18_PoolBound', 'C18_IdleAtRest',
           'NodeOwnership', 'OneLoop', 'C08_CloseOnce', 'C08_Closes', 'C07_Metrics', 'C11_AckAfter', 'C11_AckIssued', 'C11_NoLoss', 'C11_Recovery', 'C03_NoStall', 'C06_Returns', 'C05_Returns']
 
 
-OBSERVABLE = ['NoViolation', 'C01_AtMostOnce', 'C01_NoRejected', 'C02_Bound', 'C09_PauseBound', 'C18_PoolBound', 'C18_IdleAtRest', 'C08_CloseOnce', 'C08_Closes',
+OBSERVABLE = ['NoViolation', 'C01_AtMostOnce', 'C01_NoRejected', 'C02_Bound', 'C02_TuneBound', 'C09_PauseBound', 'C18_PoolBound', 'C18_IdleAtRest', 'C08_CloseOnce', 'C08_Closes',
               'C11_AckAfter', 'C11_AckIssued', 'C11_NoLoss', 'C11_Recovery', 'C03_NoStall', 'C06_Returns', 'C05_Returns']      # (what a client can see)
 
 
@@ -143,9 +144,10 @@ CONSTANTS
  BatchOf <- BatchG
  Faults <- FaultsG
  MaxCrash = %d
+ TrackTune = %s
 CHECK_DEADLOCK FALSE
 ''' % (k.get('FairSpec', 'FairSpec') if live else k.get('Spec', 'Spec'), ', '.join('"%s"' % c for c in clients), ', '.join(map(str, jobs)), k['Strategy'], tla_val(bool(k['NoBind'])),
-       ', '.join(map(str, k['Nodes'])), k['Conc0'], k['Ratio'], tla_val(k['Expiry']), tla_val(k['WithCtx']), k['MaxGen'], k['WK'], k['MaxCrash'])
+       ', '.join(map(str, k['Nodes'])), k['Conc0'], k['Ratio'], tla_val(k['Expiry']), tla_val(k['WithCtx']), k['MaxGen'], k['WK'], k['MaxCrash'], tla_val(bool(k['TrackTune'])))
     if live:
         cfg += 'PROPERTY C03_Live\n'
     else:
